@@ -51,8 +51,10 @@ fn add_regions(lay: &mut Layout, rng: &mut Rng, n_regions: usize) -> Vec<(usize,
         let off_is_line = off.starts_with("//");
         let nl = lay.nl;
         // gap before the off comment: reuse the gap that preceded piece i
-        let gap_before = std::mem::replace(&mut lay.gaps[i], if off_is_line { format!("{nl}   ") } else { (*rng.pick(&[" ", "  ", "\n\t ", ""])).to_string() });
+        let gap_before = std::mem::replace(&mut lay.gaps[i], if off_is_line { format!("{nl}   ") } else { (*rng.pick(&[" ", "  ", "\n\t ", "\t"])).to_string() });
         let gap_before = if i > 0 && lay.pieces[i - 1].kind == PieceKind::LineComment && !gap_before.contains('\n') { format!("{nl}{gap_before}") } else { gap_before };
+        // never glue the toggle comment to the previous token (`/` + `// pasfmt off` would be a `///` comment)
+        let gap_before = if gap_before.is_empty() && i > 0 { " ".to_string() } else { gap_before };
         lay.pieces.insert(i, Piece { kind: if off_is_line { PieceKind::LineComment } else { PieceKind::BlockComment }, text: off, verbatim: true });
         lay.gaps.insert(i, gap_before);
         // pieces i+1 ..= j+1 are inside
@@ -89,6 +91,7 @@ fn add_regions(lay: &mut Layout, rng: &mut Rng, n_regions: usize) -> Vec<(usize,
             let on_is_line = on.starts_with("//");
             let at = last_inside + 1;
             let gap_on = if lay.pieces[last_inside].kind == PieceKind::LineComment { format!("{nl}  ") } else { (*rng.pick(&[" ", "   ", "\n", "\t\t"])).to_string() };
+            let gap_on = if gap_on.is_empty() { " ".to_string() } else { gap_on };
             lay.pieces.insert(at, Piece { kind: if on_is_line { PieceKind::LineComment } else { PieceKind::BlockComment }, text: on, verbatim: true });
             lay.gaps.insert(at, gap_on);
             // gap after the on comment
